@@ -977,6 +977,13 @@ func (m *lfsModule) handleHTTPUploadComplete(w http.ResponseWriter, r *http.Requ
 		return
 	}
 
+	// The envelope's size and checksums cover every uploaded part, so the
+	// object must be assembled from every uploaded part, each exactly once.
+	if len(req.Parts) != len(session.Parts) {
+		m.lfsWriteHTTPError(w, requestID, session.Topic, http.StatusBadRequest, "invalid_request", "parts must list every uploaded part exactly once")
+		return
+	}
+	listed := make(map[int32]struct{}, len(req.Parts))
 	completed := make([]types.CompletedPart, 0, len(req.Parts))
 	for _, part := range req.Parts {
 		etag, ok := session.Parts[part.PartNumber]
@@ -984,6 +991,11 @@ func (m *lfsModule) handleHTTPUploadComplete(w http.ResponseWriter, r *http.Requ
 			m.lfsWriteHTTPError(w, requestID, session.Topic, http.StatusBadRequest, "invalid_part", "part etag mismatch")
 			return
 		}
+		if _, dup := listed[part.PartNumber]; dup {
+			m.lfsWriteHTTPError(w, requestID, session.Topic, http.StatusBadRequest, "invalid_request", "parts must list every uploaded part exactly once")
+			return
+		}
+		listed[part.PartNumber] = struct{}{}
 		completed = append(completed, types.CompletedPart{
 			ETag:       aws.String(part.ETag),
 			PartNumber: aws.Int32(part.PartNumber),
